@@ -23,9 +23,6 @@ Definition t_leak_notify := 2%nat.
 Definition t_modified_unencrypted := 3%nat.
 Definition t_error_code := 4%nat.
 
-Definition mon := astate.
-Definition minit (c : cfg) : mon := ainit c.
-
 Definition is_error_pdu (resp : list N) : bool := match resp with 1 :: _ => true | _ => false end.
 
 (* the judgement of one observed output; [a] is the reference state BEFORE the operation, [x] the expectation *)
@@ -42,15 +39,25 @@ Definition judge (c : cfg) (a : astate) (o : srv_op) (x : expect) (r : srv_out) 
             else if Nat.eqb kind k_read then Bad t_leak_read else Bad t_modified_unencrypted
           else Ok
       | _ =>
-          match pdu, resp with
-          | 8 :: _, 9 :: l :: entries =>                  (* Read By Type Response *)
-              if unenc && existsb (protected_handle c) (entry_handles (length entries) (N.to_nat l) entries)
-              then Bad t_leak_read else Ok
-          | 14 :: hs, 15 :: _ =>                          (* Read Multiple Response *)
-              if unenc && existsb (protected_handle c) (pair_handles hs) then Bad t_leak_read else Ok
-          | 14 :: _, [1; 14; lo; hi; e] =>                (* Read Multiple refused because of handle lo/hi *)
-              if unenc && protected_handle c (lo + 256 * hi) && negb (e =? code) then Bad t_error_code else Ok
-          | _, _ => Ok
+          match pdu with
+          | op :: hs =>
+              if op =? 8 then                                   (* Read By Type Response *)
+                match resp with
+                | 9 :: l :: entries =>
+                    if unenc && existsb (protected_handle c) (entry_handles (length entries) (N.to_nat l) entries)
+                    then Bad t_leak_read else Ok
+                | _ => Ok
+                end
+              else if op =? 14 then
+                match resp with
+                | 15 :: _ =>                                    (* Read Multiple Response *)
+                    if unenc && existsb (protected_handle c) (pair_handles hs) then Bad t_leak_read else Ok
+                | [1; 14; lo; hi; e] =>                         (* Read Multiple refused because of handle lo/hi *)
+                    if unenc && protected_handle c (lo + 256 * hi) && negb (e =? code) then Bad t_error_code else Ok
+                | _ => Ok
+                end
+              else Ok
+          | [] => Ok
           end
       end
   | OpOut cid _, OBytes (op :: lo :: hi :: _) =>
@@ -65,17 +72,7 @@ Definition judge (c : cfg) (a : astate) (o : srv_op) (x : expect) (r : srv_out) 
   | _, _ => Ok
   end.
 
-Definition mstep (c : cfg) (m : mon) (o : srv_op) (r : srv_out) : verdict * mon :=
-  let '(m', x) := astep c m o in (judge c m o x r, m').
-
-Fixpoint monitor_from (c : cfg) (m : mon) (pos : nat) (tr : list (srv_op * srv_out)) : option (nat * nat) :=
-  match tr with
-  | [] => None
-  | (o, r) :: t =>
-      match mstep c m o r with
-      | (Ok, m') => monitor_from c m' (S pos) t
-      | (Bad tag, _) => Some (pos, tag)
-      end
-  end.
-
+Definition mstep (c : cfg) (m : mon) (o : srv_op) (r : srv_out) : verdict * mon := mstep_with judge c m o r.
+Definition monitor_from (c : cfg) (m : mon) (pos : nat) (tr : list (srv_op * srv_out)) : option (nat * nat) :=
+  monitor_from_with judge c m pos tr.
 Definition monitor (c : cfg) (tr : list (srv_op * srv_out)) : option (nat * nat) := monitor_from c (minit c) O tr.
